@@ -349,7 +349,7 @@ def arena_commit_whole_range(ctx, R, prog):
     # the commit covers the whole claimed range: the committed-bitmap says which blocks were committed *somewhere* in the range, not
     # that they form a prefix, so a commit of anything less than [p, p + block_size(count)) may leave a hole that is then handed out
     commits = [c for c in h.calls(("_mi_os_commit", "_mi_os_commit_ex"))]
-    claims2 = [c for c in h.calls("_mi_bitmap_claim_across") if h.mentions_field(rl.arg(h, c, 0), "blocks_committed")]
+    claims2 = [c for c in h.calls("_mi_bitmap_claim_across") if rl.mentions_field_x(h, rl.arg(h, c, 0), "blocks_committed")]
     for c in commits:
         start = rl.canon(h, rl.arg(h, c, 0))
         size = rl.canon(h, rl.arg(h, c, 1)).replace(" ", "")
